@@ -171,6 +171,10 @@ WORLDS = {
     # more frames than an 8-bit index can count, frames smaller than 256 pixels across
     "seg-2d-tall": dict(ndim=3, seg=True, scale=None, pos="single", extra=["iou"], custom=False, ids="compute", T=258),
     "noseg-2d-long": dict(ndim=3, seg=False, scale=None, pos="single", extra=[], custom=False, ids="compute", T=1100),
+    # objects obtained by exporting to CSV / GEFF and importing the files again
+    "noseg-2d-csv": dict(ndim=3, seg=False, scale=None, pos="single", extra=[], custom=False, ids="compute", reload="csv"),
+    "noseg-2d-geff": dict(ndim=3, seg=False, scale=None, pos="single", extra=[], custom=False, ids="compute", reload="geff"),
+    "seg-2d-geff": dict(ndim=3, seg=True, scale=[1.0, 2.0, 0.75], pos="single", extra=["iou"], custom=False, ids="compute", reload="geff"),
     "noseg-3d": dict(ndim=4, seg=False, scale=[1.0, 2.0, 1.0, 0.75], pos="single", extra=[], custom=True, ids="compute"),
     "noseg-2d-axes": dict(ndim=3, seg=False, scale=None, pos="axes", extra=[], custom=True, ids="compute"),
     "seg-2d": dict(ndim=3, seg=True, scale=None, pos="single", extra=["iou"], custom=True, ids="compute"),
@@ -346,7 +350,9 @@ def build(w, seed) -> SolutionTracks:
     if w["custom"]:
         tracks.features["score"] = custom_feature("node")
         tracks.features["w"] = custom_feature("edge")
-    if w.get("reload"):
+    if w.get("reload") in ("csv", "geff"):
+        tracks = _through_files(tracks, w)
+    elif w.get("reload"):
         import pathlib
         import shutil
         import tempfile
@@ -359,6 +365,40 @@ def build(w, seed) -> SolutionTracks:
         finally:
             shutil.rmtree(d, ignore_errors=True)
     return tracks
+
+
+def _through_files(tracks, w):
+    """the object a user gets by exporting to CSV / GEFF and importing the files again"""
+    import pathlib
+    import shutil
+    import tempfile
+    import pandas as pd
+    from funtracks.import_export import export_to_csv, export_to_geff, import_from_geff
+    from funtracks.import_export.csv._import import tracks_from_df
+    if tracks.graph.number_of_nodes() == 0:
+        return tracks
+    base = "/dev/shm" if os.path.isdir("/dev/shm") and os.access("/dev/shm", os.W_OK) else None
+    d = pathlib.Path(tempfile.mkdtemp(prefix="mcw_", dir=base))
+    axes = ["y", "x"] if w["ndim"] == 3 else ["z", "y", "x"]
+    f = tracks.features
+    try:
+        if w["reload"] == "csv":
+            export_to_csv(tracks, d / "t.csv")
+            df = pd.read_csv(d / "t.csv", float_precision="round_trip")
+            back = tracks_from_df(df, node_name_map={"time": "t", "pos": axes, "id": "id", "parent_id": "parent_id",
+                                                     "track_id": "track_id"})
+        else:
+            export_to_geff(tracks, d / "g")
+            nmap = {"time": f.time_key, "pos": axes, "track_id": f.tracklet_key, "lineage_id": f.lineage_key}
+            has_seg = tracks.segmentation is not None
+            back = import_from_geff(d / "g" / "tracks", node_name_map=nmap,
+                                    segmentation_path=(d / "g" / "segmentation") if has_seg else None,
+                                    scale=None if tracks.scale is None else list(tracks.scale))
+            if w["extra"]:
+                back.enable_features(list(w["extra"]))
+    finally:
+        shutil.rmtree(d, ignore_errors=True)
+    return back
 
 
 # ---------------------------------------------------------------------------
